@@ -124,7 +124,17 @@ def judgeGas (st : DState) (fields : List String) (impl : Option Outcome) : Stri
     match ofHex src, ofHex dst, egld.toNat?, parseEsdtB esdt, parseArgs args with
     | some src, some dst, some egld, some esdt, some args =>
       if w.kind dst != some .gasService then "ok" else
-      if !implOk impl then "ok" else
+      if !implOk impl then
+        -- the property fixes exactly when fee collection may fail: everything else must go
+        -- through, over-balance entries being skipped silently
+        (if func == "collectFees" then
+          match World.pay w src dst egld esdt with
+          | some w1 =>
+            match GasService.call C w.gs ⟨src, w.owner dst, egld, esdt, World.balanceOf w1 dst⟩ func args with
+            | .ok _ => "VIOLATION:fee-collection-reverted-instead-of-skipping-over-balance-entries"
+            | .error _ => "ok"
+          | none => "ok"
+         else "ok") else
       let evs := (implEvents impl).filter (·.addr == dst)
       -- what the service's own rules allow, evaluated on the pre-state with the payment credited
       match World.pay w src dst egld esdt with
